@@ -118,6 +118,15 @@ Theorem C15_graft_dists :
 Proof. exact graft_dists. Qed.
 Print Assumptions C15_graft_dists.
 
+(** for every selection [k] of names that leaves out the tips of [t]: the path sums between
+    selected tips of the result are those of the grafted tree *)
+Theorem C15_graft_dists_inside :
+  forall t g t' idx tip w k, graft t idx tip g = Ok t' -> wf t = true ->
+    (forall x, In x (leaves t) -> k x = false) ->
+    dists_equiv (fP k (pairdists w t')) (fP k (pairdists w g)).
+Proof. exact graft_dists_inside. Qed.
+Print Assumptions C15_graft_dists_inside.
+
 (** * InsertIdenticalTip: one insertion *)
 Theorem C15_insert_tip :
   forall old nm t t', istep old nm t t' ->
